@@ -177,13 +177,47 @@ def run(E: Engine, rep: Report, tier: str) -> dict:
     # -------------------------------------------------------------- GUARD
     gd = E.method(SCHED, "get_duration")
     r = S(E, gd).ret
-    m = has(r, "max(Q_c)")
-    ok = m is not None and m["Q_c"][0] == "comp" and is_(m["Q_c"][2], "self[Q_id].get_duration(include_fall_time)") is not None or (m is not None and m["Q_c"][0] == "comp" and is_(m["Q_c"][2], "self[Q_id].get_duration(include_fall_time=include_fall_time)") is not None)
-    rep.check(ok, "GUARD", "_Schedule.get_duration|max-over-channels", "sequence duration = max over channels", f"_Schedule.get_duration no longer aggregates with max over the channels: {sh(r, 200)}", E.where(gd))
-    # all channels when channel is None
-    it = m["Q_c"][3][0][0] if ok else None
-    allch = it is not None and any(is_(t, "Q_x if channel is None else (channel,)") is not None and mentions(t, "keys", "self") for t in sym.subterms(it) if t[0] == "ifexp") or (it is not None and it[0] == "ifexp" and mentions(it[2] if is_(it[1], "channel is None") is not None else it[3], "keys"))
-    rep.check(bool(allch), "GUARD", "_Schedule.get_duration|all-channels", "ranges over all declared channels when no channel is given", f"_Schedule.get_duration no longer ranges over all channels when channel is None: iterates {sh(it, 120)}", E.where(gd))
+    from .symutil import branches as _br2, elem_of as _eo2
+
+    def chan_duration(t, of) -> bool:
+        """t = <of>.get_duration(include_fall_time)  (positional or by keyword)"""
+        return is_(t, "Q_x.get_duration(include_fall_time)", {"Q_x": of}) is not None or is_(t, "Q_x.get_duration(include_fall_time=include_fall_time)", {"Q_x": of}) is not None
+
+    def all_channels_max(t) -> bool:
+        m_ = is_(t, "max(Q_c)")
+        c = unobj(m_["Q_c"]) if m_ else None
+        if c is None or c[0] != "comp" or len(c[3]) != 1 or c[3][0][1] != sym.TRUE:
+            return False
+        it = unobj(c[3][0][0])
+        e_ = ("elem", c[3][0][0], 0)
+        if is_(it, "self.values()") is not None:
+            return chan_duration(c[2], e_)
+        if is_(it, "self.keys()") is not None or is_(it, "tuple(self.keys())") is not None or it == ("name", "self") or is_(it, "list(self)") is not None:
+            return chan_duration(c[2], ("idx", ("name", "self"), e_))
+        return False
+
+    def one_channel(t) -> bool:
+        if chan_duration(t, sym.Pattern("self[channel]").term):
+            return True
+        m_ = is_(t, "max(Q_c)")
+        c = unobj(m_["Q_c"]) if m_ else None
+        # max over the one-element tuple (channel,)
+        return bool(c is not None and c[0] == "comp" and len(c[3]) == 1 and c[3][0][0] == ("tuple", ("name", "channel")) and chan_duration(c[2], ("idx", ("name", "self"), ("elem", c[3][0][0], 0))))
+
+    from .symutil import simplify_under as _su
+
+    leaves = [(c, _su(t, c)) for c, t in _br2(r)]
+    none_l = [(c, t) for c, t in leaves if any(x == sym.Pattern("channel is None").term for x in c)]
+    some_l = [(c, t) for c, t in leaves if any(x == sym.Pattern("channel is not None").term for x in c)]
+    ok_all = bool(none_l) and all(t == ("const", 0) or all_channels_max(t) for _c, t in none_l) and any(all_channels_max(t) for _c, t in none_l)
+    ok_one = bool(some_l) and all(one_channel(t) for _c, t in some_l)
+    if not none_l and not some_l:
+        # single expression over a conditional tuple of channels
+        m = has(r, "max(Q_c)")
+        c = unobj(m["Q_c"]) if m else None
+        ok_one = ok_all = bool(c is not None and c[0] == "comp" and chan_duration(c[2], ("idx", ("name", "self"), ("elem", c[3][0][0], 0))) and any(is_(x, "Q_a if channel is None else (channel,)") is not None and mentions(is_(x, "Q_a if channel is None else (channel,)")["Q_a"], "keys", "self") for x in sym.subterms(c[3][0][0])))
+    rep.check(ok_all, "GUARD", "_Schedule.get_duration|max-over-channels", "sequence duration = max over all channels' durations when no channel is given", f"_Schedule.get_duration no longer aggregates with max over all the channels: {sh(r, 200)}", E.where(gd))
+    rep.check(ok_one, "GUARD", "_Schedule.get_duration|all-channels", "a given channel's own duration otherwise", f"_Schedule.get_duration(channel) is no longer that channel's duration: {sh(r, 200)}", E.where(gd))
     cgd = E.method(CHS, "get_duration")
     r = S(E, cgd).ret
     slot_attrs = {t[2] for t in sym.subterms(r) if t[0] == "attr" and (t[1][0] in ("elem", "item") or is_(t[1], "self.slots[-1]") is not None) and t[2] in ("ti", "tf")}
